@@ -122,11 +122,13 @@ impl Iterator for LiarIter {
     fn size_hint(&self) -> (usize, Option<usize>) {
         let lo: usize = kani::any();
         kani::assume(lo <= 64);   // the reserve it triggers is bounded (allocation size), not the lie's direction
-        (lo, None)
+        // the upper bound lies too: absent, equal to the lower bound ("exact size": seed C01-6), or anything
+        let hi: Option<usize> = if kani::any() { None } else if kani::any() { Some(lo) } else { Some(kani::any()) };
+        (lo, hi)
     }
 }
 
-// @ob props=C17,C02,C03 tier=quick kind=Kbounded bound="iterator yields <= 3 items, size hint lies in 0..=64" expect=memsafe nounwind=1 leak=1 fns=Extend<u8>_for_BytesMut::extend,BytesMut::reserve,BufMut::put_u8
+// @ob props=C17,C02,C03,C01,C04 tier=quick kind=Kbounded bound="iterator yields <= 3 items, size hint lies (lower 0..=64, upper anything)" expect=memsafe nounwind=1 leak=1 fns=Extend<u8>_for_BytesMut::extend,BytesMut::reserve,BufMut::put_u8
 #[kani::proof]
 #[kani::unwind(5)]
 fn kx_liar_size_hint_extend() {
